@@ -25,6 +25,44 @@ pub fn yield_point() {
     }
 }
 
+/// True while the current thread runs under an installed scheduler.
+pub fn scheduled() -> bool {
+    SCHEDULER.with(|s| s.borrow().is_some())
+}
+
+/// Instrumented locks.
+pub mod sync {
+    use std::sync::TryLockError;
+
+    /// Mutex with the `parking_lot` calling convention (`lock()` returns the guard). Every
+    /// `lock()` is a scheduling point; under a scheduler a contended lock yields instead of
+    /// blocking the thread, without one it behaves like an ordinary mutex.
+    #[derive(Debug, Default)]
+    pub struct Mutex<T>(std::sync::Mutex<T>);
+
+    impl<T> Mutex<T> {
+        /// See `parking_lot::Mutex::new`.
+        pub fn new(v: T) -> Self {
+            Self(std::sync::Mutex::new(v))
+        }
+        /// See `parking_lot::Mutex::lock`.
+        pub fn lock(&self) -> std::sync::MutexGuard<'_, T> {
+            loop {
+                super::yield_point();
+                match self.0.try_lock() {
+                    Ok(g) => return g,
+                    Err(TryLockError::Poisoned(p)) => return p.into_inner(),
+                    Err(TryLockError::WouldBlock) => {
+                        if !super::scheduled() {
+                            return self.0.lock().unwrap_or_else(|p| p.into_inner());
+                        }
+                    }
+                }
+            }
+        }
+    }
+}
+
 /// Instrumented atomics with the subset of the std API used by this workspace.
 pub mod atomic {
     use super::yield_point;
